@@ -388,6 +388,25 @@ def write(d, desc):
             f.write(desc["cbiconfig"])
 
 
+def db_entry(c, root):
+    """one command of a description -> the entry written into the compilation database.
+    Default (no "directory" key in the description): `directory` = the absolute analysis root, as CMake
+    writes it.  Spellings used by the `tu` stream (harness/gen/c08tu.py): `"directory": None` -> the entry
+    has NO directory key; a relative string is kept literally (load_database reads it relative to the
+    root); the prefix `$ROOT` in directory / file / arguments stands for the absolute root."""
+    def sub(x):
+        return x.replace("$ROOT", root) if isinstance(x, str) and "$ROOT" in x else x
+
+    e = {k: v for k, v in c.items() if k != "directory"}
+    e["file"] = sub(c["file"])
+    e["arguments"] = [sub(a) for a in c["arguments"]]
+    if "directory" not in c:
+        e["directory"] = root
+    elif c["directory"] is not None:
+        e["directory"] = sub(c["directory"])
+    return e
+
+
 def write_variant(d, tag, plat_cmds, in_root=False):
     """analysis file + one database per platform for the ordered mapping plat_cmds
     ([(platform, [command, ...]), ...]).  Returns the path of the analysis file.
@@ -400,6 +419,6 @@ def write_variant(d, tag, plat_cmds, in_root=False):
         for name, cmds in plat_cmds:
             db = os.path.join(base, f"{name}.json" if in_root else f"{tag}_{name}.json")
             with open(db, "w") as g:
-                json.dump([dict(c, directory=root) for c in cmds], g)
+                json.dump([db_entry(c, root) for c in cmds], g)
             f.write(f'[platform.{name}]\ncommands = "{db}"\n\n')
     return toml
